@@ -142,6 +142,11 @@ def run(check: Check) -> None:
     from .c02 import shapes
 
     shapes(check, only_kernels_of=("Norm",))  # V9: every kernel returns the broadcast shape of its operands and never mixes their rows / sample points
+    from .c13 import no_inplace_on_handed_values
+    from .common import memoisation_rule
+
+    no_inplace_on_handed_values(check, [f"{c.name}.compute" for c in check.program.subclasses("Norm") if "compute" in c.methods])  # H10: no out= / copy=False / in-place method
+    memoisation_rule(check)  # H8: no cached storage or results behind a kernel
     from ..ordertype import describe, flatten, spec_term
 
     p = check.program
